@@ -148,6 +148,17 @@ EDGE_PLAN = [
     ("E6_nosnv_start", 1, 0, 20, 0, "nosnv", None),
 ]
 
+# loci at which two candidate haplotypes cannot be told apart by the reads (a few short reads carry the ALT base of the
+# first SNV and end before the second): both are called with an intermediate occurrence probability, so a demanding
+# --haplotype-posterior-threshold leaves called haplotypes unreported (partly unknown genotypes)
+WEAK_PLAN = [
+    ("W1_weak", 0, 10, 40, 2, "weak", [14, 37]),
+    ("W2_norm", 0, 60, 90, 3, "normal"),
+    ("W3_weak", 0, 110, 140, 2, "weak", [113, 136]),
+    ("W4_weak", 1, 20, 50, 2, "weak", [25, 46]),
+    ("W5_refabs", 1, 70, 96, 2, "refabsent"),
+]
+
 LOCUS_PLAN = [
     # name, contig index, start, stop, number of SNVs, shape
     ("L1_norm", 0, 10, 40, 3, "normal"),
@@ -218,6 +229,8 @@ def make_population(dirpath, seed=0, n_samples=3, ploidies=(4, 4, 4), depth=12, 
         snvs = _pick_snvs(rnd, seq, start, stop, nsnv, tri_first=shape in ("normal", "multi", "refabsent"), explicit=explicit)
         npool = {"normal": 2, "noreads": 2, "refabsent": 3, "refabsent1": 1, "partial": 2, "multi": 5}.get(shape, 0)
         pool = _haplotype_pool(rnd, snvs, npool) if snvs else []
+        if shape == "weak":
+            pool = [(1, 0), (1, 1)]
         loci.append({"name": lname, "contig": cname, "start": start, "stop": stop, "snvs": snvs, "shape": shape, "pool": [list(h) for h in pool]})
     sites = [(l["contig"], s["pos0"], s["alleles"]) for l in loci for s in l["snvs"]]
     # two records the SNV reader must skip (an insertion and an MNP), outside every SNV position
@@ -252,6 +265,8 @@ def make_population(dirpath, seed=0, n_samples=3, ploidies=(4, 4, 4), depth=12, 
             seq = seqs[l["contig"]]
             for i in range(d):
                 h = g[i % len(g)]
+                if shape == "weak":
+                    h = (1, 0) if i < 1 + (si + len(l["name"])) % 2 else (0, 0)
                 # every read covers the whole locus except in the "multi" shape (gaps)
                 if shape == "multi":
                     st = rnd.randint(l["start"] - 6, l["start"] + 8)
@@ -259,6 +274,8 @@ def make_population(dirpath, seed=0, n_samples=3, ploidies=(4, 4, 4), depth=12, 
                 else:
                     st = rnd.randint(max(0, l["start"] - 4), l["start"])
                     ln = max(read_len, l["stop"] - st + rnd.randint(0, 3))
+                if shape == "weak" and h != (0, 0):
+                    ln = snvs[1]["pos0"] - st - rnd.randint(1, 3)      # ends before the second SNV
                 st = max(0, st)
                 ln = min(ln, len(seq) - st)
                 chars = list(seq[st : st + ln])
